@@ -6,7 +6,7 @@ package main
 // transition system (trace inclusion, item identities included) and evaluates the Spec on the terminal counters.
 //
 // input keys: inst (tokens of the startup schedule) shared (1 = one shared profile, 0 = rps-per-instance) tokens ammo
-// (-1 = unbounded) discard past (every past-th token is 3 s overdue) shotus sched (once|const|comp|comp2|line|step|paced<ms>)
+// (-1 = unbounded) discard past (every past-th token is overdue by late ms, default 3000) shotus sched (once|const|comp|comp2|line|step|paced<ms>)
 // start (once|ramp<ms>) prov (mock|json|jsonlimit|jsonpass|num) aggr (mock|phout)
 // ctl (""|rand:<seed>:<style>|path:<base-36 choices>|pb:<step>.<k>,… = preemption-bounded schedule)
 
@@ -73,6 +73,10 @@ func mkPool(get func(string) string, metrics engine.Metrics) (*poolRun, error) {
 	}
 	shot := time.Duration(atoi(get("shotus"))) * time.Microsecond
 	schedKind, past, phout := get("sched"), atoi(get("past")), get("aggr") == "phout"
+	late := 3 * time.Second
+	if v := atoi(get("late")); v > 0 {
+		late = time.Duration(v) * time.Millisecond
+	}
 	pr.conf = engine.InstancePoolConfig{
 		Provider:   p,
 		Aggregator: ag,
@@ -81,7 +85,7 @@ func mkPool(get func(string) string, metrics engine.Metrics) (*poolRun, error) {
 		},
 		RPSPerInstance: get("shared") == "0",
 		NewRPSSchedule: func() (core.Schedule, error) {
-			return &sched{r: rec, inner: mkSchedule(schedKind, tokens), past: past}, nil
+			return &sched{r: rec, inner: mkSchedule(schedKind, tokens), past: past, late: late}, nil
 		},
 		StartupSchedule: mkStartup(get("start"), inst),
 		DiscardOverflow: get("discard") == "1",
@@ -284,6 +288,9 @@ func line(inst, shared, tokens, ammo, disc, past, shot int, sched string, extra 
 	s := fmt.Sprintf("inst=%d shared=%d tokens=%d ammo=%d discard=%d past=%d shotus=%d sched=%s", inst, shared, tokens, ammo, disc, past, shot, sched)
 	if extra != "" {
 		s += " " + extra
+	}
+	if past > 0 { // how late the overdue tokens are: 2.5 s … 1 h
+		s += " late=" + []string{"2500", "3000", "5000", "9000", "3600000"}[(inst+tokens+past+shot+len(extra))%5]
 	}
 	return s
 }
